@@ -3,13 +3,22 @@ ENGINES = [
      "kind_free_text": "crash-point enumeration over the syscall log (strace) of the real writer: all byte prefixes of the write sequence, recovery and restart executed on the real library"},
     {"name": "gridmc", "path": "mc/checks", "serves_properties": ["C01", "C02", "C03", "C10", "C11", "C12", "C18", "C20"],
      "kind_free_text": "exhaustive enumeration of finite option lattices / member lists crossed with small branch-covering data alphabets, each point compared with an oracle independent of REBOUND"},
-    {"name": "histmc", "path": "mc/histmc.py", "serves_properties": ["C05", "C06", "C08", "C09", "C13", "C14", "C15", "C17"],
+    {"name": "histmc", "path": "mc/histmc.py", "serves_properties": ["C04", "C05", "C06", "C08", "C09", "C13", "C14", "C15", "C17"],
      "kind_free_text": "explicit-state breadth-first exploration of operation histories on the real library object (state = history, canonical digest de-duplication, reference-model oracle on every transition)"},
 ]
 NOTES = ("All checks explore the real implementation rebuilt from /repo's working tree (mc/build.py); no abstract model is used, "
          "so traces_validated_against_impl equals the number of executed transitions. known_findings.json lists repaired defects (fixed:) and recorded ones.")
 NOT_APPLICABLE = {}
 CHECKS = {
+    "C04": {
+        "engine": "histmc", "category": "exploration",
+        "technique": "exhaustive enumeration of (A) the integrator option lattice x boosted systems x direction, (B) every operation history over {step, 3 steps, synchronize, switch to one of 11 integrators} up to depth 3 (thorough 4) from 16 initial configurations, (C) every insertion order of the bodies x integrator x merge time for a merging collision inside a close encounter; invariants evaluated in longdouble after every operation",
+        "text": "A: all 374 documented integrator settings x {forward, backward} on S3 (thorough: also S4G and the 9-body S9), the whole system displaced and boosted so the centre of mass moves, 2000 steps (thorough 1e4) with synchronisation every 250 (1000) steps: total mass exact, momentum and uniform centre-of-mass motion to rounding (1024 u sqrt(n)), angular momentum to rounding for the fixed-step schemes and hybrid schemes (4096 u sqrt(n)) and to the accuracy class for IAS15 / BS / JANUS (grid) / barycentric WHFast, energy within the class bound, no growth between the two halves for the Wisdom-Holman family; diagnostics vs longdouble sums. "
+                "B: 13.6k (thorough 183k) distinct histories, invariants measured on a synchronised copy after every operation (class of the least accurate integrator used). "
+                "C: star + colliding pair + companion inside the switch-over radius + 1 (thorough 2) distant planets: all 24 (120) insertion orders x {MERCURIUS safe/unsafe, TRACE, IAS15, BS, WHFast, LEAPFROG} x 2 (4) merge times: exactly one merger, mass exact, momentum and centre of mass to rounding, energy + tracked offset within class, and the same energy error and final state whatever the insertion order. "
+                "D: energy(), angular_momentum(), com(), com(first,last) vs their definitions in 40-digit arithmetic on N 1..6 x 3 mass patterns x variational particles present x softening x offset 1e6.",
+        "note": "Switching integrators follows the documented discipline (really synchronize, select, reset sim.gravity, set dt); targets of a switch run in safe mode. Energy across mergers is bounded loosely (the tracked offset ignores the pair's potential with third bodies; the statement claims mass and momentum only). Processed EOS splittings and LEAPFROG are judged by their bound, not by the no-growth test (their error oscillates with periods longer than the run).",
+    },
     "C01": {
         "engine": "gridmc", "category": "exploration",
         "technique": "exhaustive enumeration of the documented integrator option lattice x test-particle setting x direction x system x three step sizes, each run compared with an independent longdouble Gragg-Bulirsch-Stoer reference; order and accuracy-class oracles, differential relations, user ODEs",
